@@ -137,29 +137,26 @@ def oracle(g, text, lexer, mode, ob=None, tabs=None):
     return None
 
 
-def invert_loaded_ok(rules_normal, rules_invert):
-    return all(a['prio'] is None and b['prio'] is None or (a['prio'] is not None and b['prio'] == -a['prio'])
-               for a, b in zip(rules_normal, rules_invert))
-
-
-# fixed corpus of known genuine defects (stable keys, listed in KNOWN_FINDINGS.json)
+# fixed regression corpus (unkeyed: a failure here is an ordinary violation)
 EXOTIC = [
-    # F13: Grammar.compile shares one RuleOptions object between the alternatives of a rule and
-    # Lark.__init__ negates rule.options.priority once per alternative: an even number of alternatives
-    # leaves the priority un-negated under priority='invert'
-    ('F13:invert-even-alternatives',
-     dict(g='start: a | b\na.2: A | A A\nb.1: A\nA: "a"\n', text='a', lexer='dynamic', mode='invert')),
+    # F24 (fixed in /repo): Grammar.compile shares one RuleOptions object between the alternatives of a rule and
+    # Lark.__init__ used to negate rule.options.priority once per alternative: an even number of alternatives
+    # left the priority un-negated under priority='invert'
+    dict(g='start: a | b\na.2: A | A A\nb.1: A\nA: "a"\n', text='a', lexer='dynamic', mode='invert'),
+    dict(g='start: a | b\na.2: A | A A\nb.1: A\nA: "a"\n', text='a', lexer='basic', mode='invert'),
+    dict(g='start.1: a B | a a B | B B B\na.2: b b | B | b? B B\nb.1: start? A b | B B | A\nA: "a"\nB: "b"\n',
+         text='bbb', lexer='basic', mode='invert'),
 ]
 
 
 def correspond(ctx):
     from lark.exceptions import LarkError
     rng = ctx.rng
-    for key, w in EXOTIC:
+    for w in EXOTIC:
         msg = oracle(w['g'], w['text'], w['lexer'], w['mode'])
-        ctx.count('exotic', nontrivial=False)
+        ctx.count('regression-corpus', nontrivial=False)
         if msg:
-            ctx.violation('oracle:exotic', w, True, msg, key=key)
+            ctx.violation('oracle:regression-corpus', w, True, msg)
     n_gram = ctx.scale(70, 700) * (3 if ctx.widen else 1)
     cases, meta = [], []
     det_cases = []
@@ -187,10 +184,6 @@ def correspond(ctx):
                         continue
                     if ob.get('cyclic'):
                         ctx.count('cyclic-skipped', nontrivial=False)
-                        continue
-                    if mode == 'invert' and not invert_loaded_ok(tabs[0], ob['rules_m']):
-                        # F13: outside the class where the property holds on this lark (see EXOTIC)
-                        ctx.count('invert-shared-options-excluded', nontrivial=False)
                         continue
                     nd = fc.count_derivs(ob['nodes'])
                     ctx.count('main', key=(g, text, lexer, mode), nontrivial=nd > 1, lexer=lexer, mode=str(mode),
